@@ -1,3 +1,39 @@
 //! Session cache hooks: `LruTimeCache` lives in a private module; it is re-exported here. The
 //! read-only dump `LruTimeCache::verif_dump` is defined next to the structure (private fields).
 pub use crate::lru_time_cache::LruTimeCache;
+
+use std::sync::atomic::{AtomicBool, Ordering};
+use std::time::Duration;
+
+static VIRTUAL_CLOCK: AtomicBool = AtomicBool::new(false);
+
+/// Makes `LruTimeCache` read tokio's clock (which a test runtime can pause and advance) instead of
+/// the system clock. Off by default: without this call the cache reads the system clock as always.
+pub fn set_virtual_clock(on: bool) {
+    VIRTUAL_CLOCK.store(on, Ordering::SeqCst);
+}
+
+/// `std::time::Instant` with a switchable `now()`; everything else is passed through.
+#[derive(Clone, Copy, Debug, PartialEq, Eq, PartialOrd, Ord, Hash)]
+pub struct Instant(std::time::Instant);
+
+impl Instant {
+    pub fn now() -> Instant {
+        if VIRTUAL_CLOCK.load(Ordering::Relaxed) {
+            Instant(tokio::time::Instant::now().into_std())
+        } else {
+            Instant(std::time::Instant::now())
+        }
+    }
+
+    pub fn into_std(self) -> std::time::Instant {
+        self.0
+    }
+}
+
+impl std::ops::Add<Duration> for Instant {
+    type Output = Instant;
+    fn add(self, d: Duration) -> Instant {
+        Instant(self.0 + d)
+    }
+}
